@@ -152,6 +152,10 @@ func (c *Config) Unpack(to interface{}, options ...Option) error {
 	if !isValid {
 		return raisePointerRequired(vTo)
 	}
+	if vTo.IsNil() {
+		// nothing to unpack into: a nil pointer, or a nil map passed by value
+		return raiseNil(ErrNilValue)
+	}
 
 	return reifyInto(opts, vTo, c)
 }
